@@ -38,6 +38,7 @@ func runC07(c *Ctx, r *Report) {
 	c07ALPN(c, r, "C07.R11")
 	c07Hello(c, r, "C07.R12")
 	c07PlaceholdersFirst(c, r, "C07.R13")
+	c15TablesFor(c, r, "C07.R15", "l4tls.(*MatchALPN)") // ALPN routing decides on the ids the configuration lists: all lines of an alpn matcher add up
 	// R6
 	c06R3only(c, r, "C07.R6", "modules/l4tls.")
 }
@@ -215,6 +216,13 @@ func c07R12(c *Ctx, r *Report) {
 	}
 	fcases = append(fcases,
 		fc{"three records, cut at 2 and 30", append(append(rec(22, 2, hello[:2]), rec(22, 28, hello[2:30])...), rec(22, 10, hello[30:])...), "parse"},
+		fc{"twenty records of two bytes", func() []byte {
+			var out []byte
+			for i := 0; i < 40; i += 2 {
+				out = append(out, rec(22, 2, hello[i:i+2])...)
+			}
+			return out
+		}(), "parse"},
 		fc{"two records and trailing bytes", append(append(rec(22, 20, hello[:20]), rec(22, 20, hello[20:])...), 9, 9, 9), "parse"},
 		fc{"two records, the second holding 3 bytes beyond the message", append(rec(22, 20, hello[:20]), rec(22, 23, append(append([]byte(nil), hello[20:]...), 9, 9, 9))...), "parse"},
 		fc{"one record holding 3 bytes beyond the message", rec(22, 43, append(append([]byte(nil), hello...), 9, 9, 9)), "parse"},
@@ -231,6 +239,7 @@ func c07R12(c *Ctx, r *Report) {
 			h["m.logger"] = symRef("logger", false)
 		}}
 		sc := msgScenario(c, mm, msgCase{name: t.name, msg: t.msg})
+		sc.MaxVisit = 60 // a hello may take many records
 		orig := sc.Call
 		parsed := "-"
 		sc.Call = func(callee string, args []SV, ev *symEval, st *symState) (SV, bool) {
